@@ -1,8 +1,8 @@
 """Session-history fuzzer, model side: evaluates PonyV.Model.SessionCheck.check_history by vm_compute inside coqc.
 
 check_histories(ctx, histories, chunk=40) -> [(code, index)] per history
-    code 0 = every compared result and dump agrees; 1 = agreed up to a dirty step (model flags an incomplete undo / known defect site,
-    comparison stops there); 2 = agreed up to a step the model declines (outside the modelled domain); 3 = result mismatch at op
+    code 0 = every compared result and dump agrees; 100 + site = agreed up to a dirty step (model flags an incomplete undo / known
+    defect site / assertion site, comparison stops there); 9 = the schema is not wf_schema; 2 = agreed up to a step the model declines (outside the modelled domain); 3 = result mismatch at op
     `index`; 4 = committed-rows mismatch after op `index` (index = len(ops): the final dump).
 model_trace(ctx, history) -> text          the model's per-op results and dumps, as printed by Coq (diagnosis only)
 """
@@ -15,8 +15,8 @@ HEADER = ('Require Import PonyV.Model.SessionBase PonyV.Model.SessionDb PonyV.Mo
 
 
 def case_term(h):
-    return '(check_history %s %s %s %s)' % (sf.coq_schema(h['schema']), sf.coq_ops(h['ops']), sf.coq_results(h['results']),
-                                             sf.coq_dumps(h['dumps']))
+    return '(let sch := %s in if wf_schema sch then check_history sch %s %s %s else (9, 0))' % (
+        sf.coq_schema(h['schema']), sf.coq_ops(h['ops']), sf.coq_results(h['results']), sf.coq_dumps(h['dumps']))
 
 
 def check_histories(ctx, histories, chunk=40, jobs=8):
